@@ -89,6 +89,17 @@ pub fn run(o: &Opts) -> Report {
             }
             lines.push(format!("op {} create_dir_all {}", sb, enc_str("/dst/deep")));
             lines.push(format!("op {} write {} {}", sb, enc_str("/dst/occupied"), enc_bytes(b"occ")));
+            // bystanders whose names have the source / destination names as string prefixes (or are
+            // prefixes of them): no transfer may touch them
+            lines.push(format!("op {} create_dir {}", sa, enc_str("/src2")));
+            lines.push(format!("op {} write {} {}", sa, enc_str("/src2/k"), enc_bytes(b"k")));
+            lines.push(format!("op {} write {} {}", sa, enc_str("/src.bak"), enc_bytes(b"bak")));
+            lines.push(format!("op {} create_dir {}", sa, enc_str("/sr")));
+            lines.push(format!("op {} write {} {}", sb, enc_str("/dst/mv.old"), enc_bytes(b"m")));
+            lines.push(format!("op {} create_dir {}", sb, enc_str("/dst/copy2")));
+            lines.push(format!("op {} write {} {}", sb, enc_str("/dst/copy2/z"), enc_bytes(b"z")));
+            let by_a: Vec<String> = ["/src2", "/src2/k", "/src.bak", "/sr"].iter().map(|s| s.to_string()).collect();
+            let by_b: Vec<String> = ["/dst/mv.old", "/dst/copy2", "/dst/copy2/z", "/dst/mv2", "/dst/m"].iter().map(|s| s.to_string()).collect();
             let src_uni = sub_universe(&tree, "/src", "/src");
             let snap_line = |fs: usize, paths: &Vec<String>| format!("snap {} {}", fs, paths.iter().map(|p| enc_str(p)).collect::<Vec<_>>().join(" "));
             let mut results: Vec<String> = vec![];
@@ -104,6 +115,8 @@ pub fn run(o: &Opts) -> Report {
             }
             let desc = format!("[{} -> {}{}] tree of {} entries", ka, kb, if same { ", same instance" } else { "" }, tree.len());
             let mk = |sig: &str, what: String, a: &str, b: &str, batch: &Vec<String>| Fail { oracle: "prop".into(), signature: format!("xfer:{}", sig), what: format!("{}: {}", desc, what), script: batch[start..].iter().map(|l| format!("B {}", l)).collect(), impl_out: a.into(), model_out: b.into() };
+            let by_a0 = exec(&mut world, snap_line(sa, &by_a), &mut batch, &mut impl_outs);
+            let by_b0 = exec(&mut world, snap_line(sb, &by_b), &mut batch, &mut impl_outs);
             let src_before = exec(&mut world, snap_line(sa, &src_uni), &mut batch, &mut impl_outs);
             let n_desc = tree.len() - 1;
             // 1. copy_dir /src -> /dst/copy
@@ -124,6 +137,13 @@ pub fn run(o: &Opts) -> Report {
                 }
                 if src_after != src_before {
                     rep.fail(mk("copy_dir:source-changed", first_diff(&src_after, &src_before), &src_after, &src_before, &batch));
+                }
+            }
+            for (stage, fsid, uni, want) in [("copy_dir", sa, &by_a, &by_a0), ("copy_dir", sb, &by_b, &by_b0)] {
+                let now = exec(&mut world, snap_line(fsid, uni), &mut batch, &mut impl_outs);
+                corr_points.push((batch.len() - 1, desc.clone()));
+                if now != *want {
+                    rep.fail(mk(&format!("{}:bystander-changed", stage), format!("an entry outside the transferred subtree changed: {}", first_diff(&now, want)), &now, want, &batch));
                 }
             }
             // 2. refused existing destinations, no side effects
@@ -199,6 +219,13 @@ pub fn run(o: &Opts) -> Report {
                     rep.fail(mk("move_dir:source-left-behind", format!("the source is still visible: {}", src_gone.split(' ').find(|t| !t.contains("=A|")).unwrap_or("?")), &src_gone, "", &batch));
                 }
             }
+            for (stage, fsid, uni, want) in [("move_dir", sa, &by_a, &by_a0), ("move_dir", sb, &by_b, &by_b0)] {
+                let now = exec(&mut world, snap_line(fsid, uni), &mut batch, &mut impl_outs);
+                corr_points.push((batch.len() - 1, desc.clone()));
+                if now != *want {
+                    rep.fail(mk(&format!("{}:bystander-changed", stage), format!("an entry outside the transferred subtree changed: {}", first_diff(&now, want)), &now, want, &batch));
+                }
+            }
             // 5. create_dir_all exact chain; remove_dir_all exact subtree and absent path
             let chain = vec!["/n".to_string(), "/n/e".into(), "/n/e/w".into(), "/n/x".into(), "/nn".into()];
             let r = exec(&mut world, format!("op {} create_dir_all {}", sb, enc_str("/n/e/w")), &mut batch, &mut impl_outs);
@@ -220,6 +247,12 @@ pub fn run(o: &Opts) -> Report {
             let pk = parse_snap(&kept);
             if r1 != "ok" || r2 != "ok" || parse_snap(&gone).values().any(|o| o.ex != "A") || pk["/dst/deep"].ex != "E" || pk["/dst/occupied"].ex != "E" || pk["/n/e/w"].ex != "E" {
                 rep.fail(mk("remove_dir_all:not-exact", format!("remove_dir_all returned {} then {} (absent path); subtree gone: {}; siblings kept: {}", r1, r2, !parse_snap(&gone).values().any(|o| o.ex != "A"), kept), &gone, "", &batch));
+            }
+            for (stage, fsid, uni, want) in [("remove_dir_all", sa, &by_a, &by_a0), ("remove_dir_all", sb, &by_b, &by_b0)] {
+                let now = exec(&mut world, snap_line(fsid, uni), &mut batch, &mut impl_outs);
+                if now != *want {
+                    rep.fail(mk(&format!("{}:bystander-changed", stage), format!("an entry outside the removed subtree changed: {}", first_diff(&now, want)), &now, want, &batch));
+                }
             }
             results.push(project(&r1, 0));
             rep.distinct_hash(&format!("{}|{}|{}|{:?}", ka, kb, same, results));
